@@ -283,6 +283,19 @@ fn read_case(img: &[u8], valid_endlib_end: Option<usize>, truncated_at: Option<u
         }
         // O4: re-serialise and read back
         let mut buf = Vec::new();
+        // (the rewrite also goes through a sink that accepts 1..7 bytes per call whenever this case has an I/O schedule)
+        if let Some((io, pol)) = via_source.as_ref() {
+            if pol.chunk_max > 0 {
+                let sink = SimSink::new(io, Policy { chunk_max: pol.chunk_max, ..Default::default() });
+                let st = sink.store.clone();
+                if let Ok(Ok(())) = guard(|| l.write(sink)) {
+                    let mut plain = Vec::new();
+                    if l.write(&mut plain).is_ok() && *st.borrow() != plain {
+                        return CaseOut { violation: Some(Violation { class: "returned-library-unstable".into(), sig: "rewrite/chunked-sink/bytes".into(), detail: format!("writing a returned library through a sink that takes {} byte(s) per call gives different bytes than writing it to memory", pol.chunk_max), artefact: art(img) }), ok: true };
+                    }
+                }
+            }
+        }
         match guard(|| l.write(&mut buf)) {
             Err(p) => return CaseOut { violation: Some(panic_violation("GdsLibrary::write(of a library the reader returned)", &p, art(img))), ok: true },
             Ok(Err(e)) => return CaseOut { violation: Some(Violation { class: "returned-library-unwritable".into(), sig: format!("rewrite:{}", gds_err_sig(&e)), detail: format!("a library the reader returned cannot be written: {}", e), artefact: art(img) }), ok: true },
